@@ -435,7 +435,8 @@ class Renderer:
         if s.get("after"):
             af: Dict[Any, Any] = {}
             for delay, ts in s["after"]:
-                af[delay] = self.render_tlist(ts)
+                key = str(delay) if (sp.get("after_str") and isinstance(delay, int)) else delay
+                af[key] = self.render_tlist(ts, ts[0].get("sp") if len(ts) == 1 else None)
             cfg["after"] = af
         if s.get("invoke"):
             invs = []
